@@ -28,4 +28,8 @@ contract(INDEX, 'LocMap.map_slice_args',
         'implies(n == 2, result == key.step)',
     ],
     yield_update=['n = n + 1'],
-    at_exit=['n == 3'])
+    at_exit=['n == 3'],
+    requires_concrete=[],
+    raises_concrete={'LocInvalid': '(key.start is not None and key.start not in _map) or (key.stop is not None and key.stop not in _map)'},
+    at_yield_concrete=[],
+    at_exit_concrete=['yields == ref_map_slice_args(_map, key, offset)'])
